@@ -3,6 +3,7 @@ package rules
 import (
 	"go/token"
 	"go/types"
+	"sort"
 	"strings"
 
 	"golang.org/x/tools/go/ssa"
@@ -133,6 +134,28 @@ func runC04(p *an.Prog, r *an.Run, tier string) {
 	for _, w := range a.wrappers {
 		checkWrapper(p, r, w)
 	}
+	// unsigned-surface: an exposed RPC method that is not a signed endpoint must not reach a state-changing effect
+	signed := map[*ssa.Function]bool{}
+	for _, ep := range a.endpoints {
+		signed[ep.Fn] = true
+	}
+	nUnsigned := 0
+	for _, h := range HandlerMethods(p, a.regs) {
+		if signed[h] || isTestDoublePkg(h) {
+			continue
+		}
+		// agent-side reverse services act on the local node, not on pool state
+		if h.Pkg != nil && h.Pkg.Pkg.Path() == pkgAgent {
+			continue
+		}
+		nUnsigned++
+		name := an.FuncName(h)
+		r.Analysed(name)
+		w := mutatingEffect(p, h)
+		r.Check(w == "", "unsigned-surface", name, h.Pos(), "exposed without signature and free of state-changing effects",
+			"%s is exposed as an RPC method without (signature, identity, nonce) parameters but reaches a state-changing effect: %s", name, w)
+	}
+	r.Floor("unsigned-methods", nUnsigned, 3)
 	checkHashCovers(p, r)
 	checkDispatchAgree(p, r, a)
 }
@@ -355,6 +378,29 @@ func checkHashCovers(p *an.Prog, r *an.Run) {
 	for _, prm := range asm.Params {
 		if !d.HasParam(prm) {
 			missing = append(missing, prm.Name())
+		}
+	}
+	// identity and nonce must enter the payload unconverted (a float64 or narrowed nonce makes neighbouring nonces sign alike)
+	exact := map[*ssa.Parameter]bool{}
+	an.AllInstrs(asm, func(in ssa.Instruction) {
+		if mi, ok := in.(*ssa.MakeInterface); ok {
+			if prm, ok := mi.X.(*ssa.Parameter); ok {
+				exact[prm] = true
+			}
+		}
+		if cv, ok := in.(*ssa.Convert); ok {
+			if prm, ok := cv.X.(*ssa.Parameter); ok {
+				if b, ok := cv.Type().Underlying().(*types.Basic); ok && b.Info()&types.IsNumeric != 0 {
+					missing = append(missing, prm.Name()+" (converted to "+cv.Type().String()+" before signing: lossy)")
+				}
+			}
+		}
+	})
+	if len(asm.Params) == 4 {
+		for _, prm := range asm.Params[1:3] {
+			if !exact[prm] {
+				missing = append(missing, prm.Name()+" (does not enter the signed payload as itself)")
+			}
 		}
 	}
 	r.Check(len(missing) == 0 && len(rets) > 0, "hash-covers", "request.assemble", asm.Pos(),
@@ -745,4 +791,70 @@ func runC06(p *an.Prog, r *an.Run, tier string) {
 		r.Check(len(un) == 0, "effects-after-verify", name, ep.Fn.Pos(), "no store/manager/service/registry effect reachable without a successful verify",
 			"effects reachable for a refused request: %s", strings.Join(un, "; "))
 	}
+}
+
+var mutatingStoreMethods = map[string]bool{"SetNode": true, "AddNodeBalance": true, "AddAccountBalance": true, "AddAccountNode": true,
+	"UpdateNodePeers": true, "CheckAndSaveNonce": true, "RemoveNode": true}
+
+// mutatingEffect returns a witness when fn transitively reaches a call that
+// changes pool state or instructs a host: store mutators, balance manager,
+// reverse RPC, settlement, or a write to the VipnodePool host registry.
+func mutatingEffect(p *an.Prog, fn *ssa.Function) string {
+	var names []*ssa.Function
+	for g := range p.Reach(fn) {
+		names = append(names, g)
+	}
+	sortFuncs(names)
+	for _, g := range names {
+		w := ""
+		an.AllInstrs(g, func(in ssa.Instruction) {
+			if w != "" {
+				return
+			}
+			if c, ok := in.(ssa.CallInstruction); ok {
+				f := an.CallObj(c)
+				switch {
+				case f != nil && isStoreMethod(f) && mutatingStoreMethods[f.Name()]:
+					w = an.ObjString(f)
+				case f != nil && (isManagerMethod(f) || isServiceCall(f)):
+					w = an.ObjString(f)
+				case f == nil && len(settleCallsAt(c)) > 0:
+					w = "settlement handler"
+				}
+				if w != "" {
+					w += " at " + p.Pos(c.Pos()) + " (in " + an.FuncName(g) + ")"
+				}
+			}
+			switch x := in.(type) {
+			case *ssa.MapUpdate:
+				if f := memMapField(x.Map); f == "remoteHosts" || f == "remoteNodeLookup" {
+					w = "host registry write at " + p.Pos(in.Pos())
+				}
+			}
+		})
+		if w != "" {
+			return w
+		}
+	}
+	return ""
+}
+
+func settleCallsAt(c ssa.CallInstruction) []ssa.CallInstruction {
+	cc := c.Common()
+	if cc.IsInvoke() || cc.StaticCallee() != nil {
+		return nil
+	}
+	if n, ok := cc.Value.Type().(*types.Named); ok && n.Obj().Name() == "SettleHandler" {
+		return []ssa.CallInstruction{c}
+	}
+	if u, ok := cc.Value.(*ssa.UnOp); ok && u.Op == token.MUL {
+		if fv := an.FieldOf(u.X); fv != nil && fv.Name() == "Settle" {
+			return []ssa.CallInstruction{c}
+		}
+	}
+	return nil
+}
+
+func sortFuncs(l []*ssa.Function) {
+	sort.Slice(l, func(i, j int) bool { return an.FuncName(l[i]) < an.FuncName(l[j]) })
 }
